@@ -25,9 +25,19 @@ What is proved (for all copies, digests, truncation points, histories):
   contains a progressing handshake (fairness), some sweep boundary within the first
   `n · ((V+1)² − 1) + 1` is converged.
 
-*Partial*: that a sweep over a connected graph always contains a pair (holder ahead, lagging copy)
-to which `C01_handshake_step_progress` applies is argued in DESIGN.md, not mechanised; it is
-exercised by the `cluster` suite's fair suffix and its monitors (and fails in the KF-3 situation).
+* `C01_mesh_sweep_progress`, `C01_full_mesh_converges`: the fairness hypothesis is discharged for
+  full-mesh sweeps of the member-level system (`XSys`, the system of C02/C03: owner, holders, every
+  delta ever computed): from any reachable state, once the owner stops writing, a sweep in which the
+  owner shakes hands loss-free with every holder (interleaved with arbitrary other gossip, stale and
+  duplicated deliveries, key GCs) strictly raises some lagging copy and lowers none; hence a converged
+  sweep boundary appears within `n · ((V+1)² − 1) + 1` sweeps.
+
+*Partial*: the sweep theorem is per member and takes `1 ≤ n` (one op beyond the member's header is
+admitted) as the hypothesis on each handshake; `C01_handshake_step_progress` derives it from the byte
+budget only for the *first* member in staleness order, so that several members competing for one
+datagram all get their turn (and do not in the KF-3 situation) is argued in DESIGN.md and exercised
+by the `cluster` suite's fair suffix and its monitors, not mechanised. Sweeps over a connected but
+not complete graph (information relayed by third parties) are not mechanised either.
 -/
 import ChitchatModel.Props.C14
 import ChitchatModel.Props.C03
@@ -313,5 +323,375 @@ example : WFCluster exCs := by
 
 example : rank 3 (1, 2) < rank 3 (2, 0) := by decide
 example : [0, 3, 4].Pairwise (fun a b => a < b) := by decide
+
+section Mesh
+open Ledger
+
+/-! ### Full-mesh sweeps discharge the fairness hypothesis -/
+
+/-- frontiers of the copies of the member, in replica order -/
+def XSys.fronts (σ : XSys) : List (Nat × Nat) := σ.replicas.map NodeState.frontier
+
+theorem frontierLe_refl (a : Nat × Nat) : frontierLe a a := Or.inr ⟨rfl, Nat.le_refl _⟩
+
+theorem frontierLe_trans {a b c : Nat × Nat} (h1 : frontierLe a b) (h2 : frontierLe b c) : frontierLe a c := by
+  unfold frontierLe at *; omega
+
+theorem frontierLt_of_lt_le {a b c : Nat × Nat} (h1 : frontierLt a b) (h2 : frontierLe b c) : frontierLt a c := by
+  unfold frontierLe frontierLt at *; omega
+
+theorem frontierLt_of_le_lt {a b c : Nat × Nat} (h1 : frontierLe a b) (h2 : frontierLt b c) : frontierLt a c := by
+  unfold frontierLe frontierLt at *; omega
+
+theorem lt_of_getElemOpt_some {α : Type} {l : List α} {i : Nat} {x : α} (h : l[i]? = some x) : i < l.length := by
+  rcases Nat.lt_or_ge i l.length with h' | h'
+  · exact h'
+  · rw [List.getElem?_eq_none h'] at h; cases h
+
+theorem stepLe_iff : ∀ (a b : List (Nat × Nat)),
+    StepLe a b ↔ a.length = b.length ∧ ∀ (i : Nat) x y, a[i]? = some x → b[i]? = some y → frontierLe x y
+  | [], [] => by simp [StepLe]
+  | [], _ :: _ => by simp [StepLe]
+  | _ :: _, [] => by simp [StepLe]
+  | x :: as, y :: bs => by
+    simp only [StepLe, stepLe_iff as bs, List.length_cons]
+    constructor
+    · rintro ⟨h0, hl, hi⟩
+      refine ⟨by omega, ?_⟩
+      intro i u v hu hv
+      cases i with
+      | zero => simp at hu hv; subst hu; subst hv; exact h0
+      | succ i => simp at hu hv; exact hi i u v hu hv
+    · rintro ⟨hl, hi⟩
+      refine ⟨hi 0 x y (by simp) (by simp), by omega, ?_⟩
+      intro i u v hu hv
+      exact hi (i + 1) u v (by simpa using hu) (by simpa using hv)
+
+theorem stepLt_of : ∀ (a b : List (Nat × Nat)), StepLe a b →
+    (∃ (i : Nat) (x y : Nat × Nat), a[i]? = some x ∧ b[i]? = some y ∧ frontierLt x y) → StepLt a b
+  | [], [], _, ⟨_, _, _, h, _⟩ => by simp at h
+  | [], _ :: _, h, _ => by cases h
+  | _ :: _, [], h, _ => by cases h
+  | u :: as, v :: bs, h, ⟨i, x, y, hx, hy, hlt⟩ => by
+    obtain ⟨h0, ht⟩ := h
+    cases i with
+    | zero => simp at hx hy; subst hx; subst hy; exact Or.inl ⟨hlt, ht⟩
+    | succ i =>
+      exact Or.inr ⟨h0, stepLt_of as bs ht ⟨i, x, y, by simpa using hx, by simpa using hy, hlt⟩⟩
+
+/-- A quiet step: the owner has stopped writing and the set of holders is fixed; everything else
+(gossip offers from anybody, deliveries in any order, duplicates, stale deltas, key GC) is allowed. -/
+def Quiet (σ σ' : XSys) : Prop :=
+  XStep false σ σ' ∧ σ'.H = σ.H ∧ σ'.replicas.length = σ.replicas.length
+
+inductive QRun : XSys → XSys → Prop
+  | refl (σ : XSys) : QRun σ σ
+  | step (σ σ' σ'' : XSys) : Quiet σ σ' → QRun σ' σ'' → QRun σ σ''
+
+theorem QRun.trans {a b c : XSys} (h1 : QRun a b) (h2 : QRun b c) : QRun a c := by
+  induction h1 with
+  | refl => exact h2
+  | step σ σ' σ'' hq _ ih => exact QRun.step σ σ' c hq (ih h2)
+
+theorem QRun.reach {a b : XSys} (h : QRun a b) (ha : XReach false a) : XReach false b := by
+  induction h with
+  | refl => exact ha
+  | step σ σ' σ'' hq _ ih => exact ih (XReach.step σ σ' ha hq.1)
+
+theorem QRun.same {a b : XSys} (h : QRun a b) : b.H = a.H ∧ b.replicas.length = a.replicas.length := by
+  induction h with
+  | refl => exact ⟨rfl, rfl⟩
+  | step σ σ' σ'' hq _ ih => exact ⟨ih.1.trans hq.2.1, ih.2.trans hq.2.2⟩
+
+theorem stepLe_set (l : List NodeState) (i : Nat) (r r' : NodeState) (hr : l[i]? = some r)
+    (hle : frontierLe r.frontier r'.frontier) :
+    StepLe (l.map NodeState.frontier) ((l.set i r').map NodeState.frontier) := by
+  rw [stepLe_iff]
+  refine ⟨by simp, ?_⟩
+  intro j x y hx hy
+  simp only [List.getElem?_map] at hx hy
+  by_cases hij : i = j
+  · subst hij
+    rw [hr] at hx
+    have hlt : i < l.length := lt_of_getElemOpt_some hr
+    rw [List.getElem?_set_self hlt] at hy
+    simp at hx hy; subst hx; subst hy; exact hle
+  · rw [List.getElem?_set_ne hij] at hy
+    rw [hx] at hy; cases hy; exact frontierLe_refl _
+
+theorem stepLe_refl (a : List (Nat × Nat)) : StepLe a a := by
+  rw [stepLe_iff]; refine ⟨rfl, ?_⟩
+  intro i x y hx hy; rw [hx] at hy; cases hy; exact frontierLe_refl _
+
+theorem stepLe_trans {a b c : List (Nat × Nat)} (h1 : StepLe a b) (h2 : StepLe b c) : StepLe a c := by
+  rw [stepLe_iff] at *
+  refine ⟨h1.1.trans h2.1, ?_⟩
+  intro i x z hx hz
+  have hi : i < b.length := by
+    have : i < a.length := lt_of_getElemOpt_some hx
+    omega
+  exact frontierLe_trans (h1.2 i x b[i] hx (List.getElem?_eq_getElem hi)) (h2.2 i b[i] z (List.getElem?_eq_getElem hi) hz)
+
+/-- a quiet step never lowers the frontier of any copy -/
+theorem quiet_mono (σ σ' : XSys) (hr : XReach false σ) (h : Quiet σ σ') : StepLe σ.fronts σ'.fronts := by
+  obtain ⟨hstep, hH, hlen⟩ := h
+  have hinv := xinv_reach false false (by intro h; cases h) σ hr
+  unfold XSys.fronts
+  cases hstep with
+  | write w now => simp at hH
+  | gcOwner now grace => exact stepLe_refl _
+  | gcReplica i now grace r hri =>
+    apply stepLe_set _ i r _ hri
+    have := C04_gc_monotone r now grace
+    unfold frontierLe NodeState.frontier
+    simp only
+    omega
+  | join hb => simp at hlen
+  | remove i =>
+    simp only at hlen
+    have : σ.replicas.length ≤ i := by
+      rcases Nat.lt_or_ge i σ.replicas.length with hlt | hge
+      · rw [List.length_eraseIdx_of_lt hlt] at hlen
+        omega
+      · exact hge
+    simp only [List.eraseIdx_of_length_le this]
+    exact stepLe_refl _
+  | offerOwner f n b => exact stepLe_refl _
+  | offerReplica i s hs f n b => exact stepLe_refl _
+  | deliver i r hri d hd now r' st evs happ hguard =>
+    apply stepLe_set _ i r _ hri
+    have hwf : d.1.KvsLeMax := (hinv.deltaWF d hd).1.leMax
+    obtain ⟨s', evs', h, hle, _, _⟩ := C04_frontier_monotone r d.1 now hwf
+    rw [happ] at h
+    cases h
+    exact hle
+  | deliverToOwner d hd now o' st evs happ => exact stepLe_refl _
+
+theorem qrun_mono {a b : XSys} (h : QRun a b) (ha : XReach false a) : StepLe a.fronts b.fronts := by
+  induction h with
+  | refl => exact stepLe_refl _
+  | step σ σ' σ'' hq _ ih =>
+    exact stepLe_trans (quiet_mono σ σ' ha hq) (ih (XReach.step σ σ' ha hq.1))
+
+/-- One handshake between the owner and holder `j`, with nothing lost: the owner answers the digest
+entry of `j`'s copy and `j` applies the answer. When the copy is not behind, nothing is offered.
+`n ≥ 1` is the property's proviso (the header and one more op fit the datagram), which
+`C01_handshake_step_progress` derives from the byte budget for the first member in staleness order. -/
+def OwnerShake (j : Nat) (σ σ' : XSys) : Prop :=
+  ∃ r, σ.replicas[j]? = some r ∧
+    ((¬ r.maxVersion < σ.owner.maxVersion ∧ σ' = σ) ∨
+     (r.maxVersion < σ.owner.maxVersion ∧ ∃ n now r' st evs, 1 ≤ n ∧
+        r.applyDelta (senderNodeDelta σ.owner (senderFrom σ.owner r.lastGc r.maxVersion) n true) now = .ok (r', st, evs) ∧
+        σ' = { σ with
+          deltas := σ.deltas ++ [(senderNodeDelta σ.owner (senderFrom σ.owner r.lastGc r.maxVersion) n true,
+                                  max σ.owner.lastGc σ.owner.maxVersion)],
+          replicas := σ.replicas.set j r' }))
+
+/-- a handshake is two quiet steps of the system (an offer by the owner, a delivery) -/
+theorem ownerShake_qrun (j : Nat) (σ σ' : XSys) (h : OwnerShake j σ σ') : QRun σ σ' := by
+  obtain ⟨r, hr, h | ⟨hlag, n, now, r', st, evs, hn, happ, rfl⟩⟩ := h
+  · rw [h.2]; exact QRun.refl _
+  · let f := senderFrom σ.owner r.lastGc r.maxVersion
+    let σ₁ : XSys := { σ with deltas := σ.deltas ++ [(senderNodeDelta σ.owner f n true, max σ.owner.lastGc σ.owner.maxVersion)] }
+    have s1 : Quiet σ σ₁ := ⟨XStep.offerOwner σ f n true, rfl, rfl⟩
+    have s2 : XStep false σ₁ { σ₁ with replicas := σ₁.replicas.set j r' } :=
+      XStep.deliver σ₁ j r hr (senderNodeDelta σ.owner f n true, max σ.owner.lastGc σ.owner.maxVersion)
+        (by simp [σ₁]) now r' st evs happ (by intro h; cases h)
+    exact QRun.step σ σ₁ _ s1 (QRun.step σ₁ _ _ ⟨s2, rfl, by simp [σ₁]⟩ (QRun.refl _))
+
+/-- a handshake with a lagging copy strictly raises its frontier -/
+theorem ownerShake_progress (j : Nat) (σ σ' : XSys) (h : OwnerShake j σ σ') (r : NodeState)
+    (hr : σ.replicas[j]? = some r) (hlag : r.maxVersion < σ.owner.maxVersion) :
+    ∃ r', σ'.replicas[j]? = some r' ∧ frontierLt r.frontier r'.frontier := by
+  obtain ⟨r0, hr0, h | ⟨_, n, now, r', st, evs, hn, happ, rfl⟩⟩ := h
+  · rw [hr] at hr0; cases hr0; exact absurd hlag h.1
+  · rw [hr] at hr0; cases hr0
+    obtain ⟨r'', st', evs', happ', hlt⟩ := C14_nonempty_progress σ.owner r n now hlag hn
+    rw [happ] at happ'
+    cases happ'
+    have hj : j < σ.replicas.length := lt_of_getElemOpt_some hr
+    exact ⟨r', by simp [List.getElem?_set_self hj], hlt⟩
+
+/-- A full-mesh sweep seen from one member: a quiet run during which the owner shakes hands, loss-free,
+with every holder at least once — in any order, interleaved with any other gossip. -/
+def MeshSweep (σ σ' : XSys) : Prop :=
+  ∀ j, j < σ.replicas.length → ∃ σ₁ σ₂, QRun σ σ₁ ∧ OwnerShake j σ₁ σ₂ ∧ QRun σ₂ σ'
+
+theorem getElemOpt_fronts (σ : XSys) (j : Nat) (r : NodeState) (h : σ.replicas[j]? = some r) :
+    σ.fronts[j]? = some r.frontier := by
+  simp [XSys.fronts, h]
+
+/-- **C01 (a full-mesh sweep is fair).** From any reachable state in which some copy of the member is
+not at the owner's max version, a sweep in which the owner shakes hands with every holder strictly
+raises the frontier of some copy and lowers none — whatever else happens during the sweep. This is
+the fairness hypothesis of `C01_converges_within_bounded_sweeps`. -/
+theorem C01_mesh_sweep_progress (σ σ' : XSys) (hreach : XReach false σ)
+    (hs : MeshSweep σ σ') (hnc : ¬ ConvergedAt σ.H.length σ.fronts) : StepLt σ.fronts σ'.fronts := by
+  -- a lagging copy
+  have hex : ∃ (j : Nat) (r : NodeState), σ.replicas[j]? = some r ∧ r.maxVersion ≠ σ.H.length := by
+    apply Classical.byContradiction
+    intro hno
+    apply hnc
+    intro f hf
+    simp only [XSys.fronts, List.mem_map] at hf
+    obtain ⟨r, hr, rfl⟩ := hf
+    obtain ⟨j, hj, hjr⟩ := List.getElem_of_mem hr
+    apply Classical.byContradiction
+    intro hneq
+    exact hno ⟨j, r, by rw [List.getElem?_eq_getElem hj, hjr], hneq⟩
+  obtain ⟨j, r, hr, hrne⟩ := hex
+  have hj : j < σ.replicas.length := lt_of_getElemOpt_some hr
+  obtain ⟨σ₁, σ₂, hq1, hsh, hq2⟩ := hs j hj
+  have hreach1 := hq1.reach hreach
+  have hreach2 := (ownerShake_qrun j σ₁ σ₂ hsh).reach hreach1
+  have hm1 := qrun_mono hq1 hreach
+  have hm12 := qrun_mono (ownerShake_qrun j σ₁ σ₂ hsh) hreach1
+  have hm2 := qrun_mono hq2 hreach2
+  have hall : StepLe σ.fronts σ'.fronts := stepLe_trans hm1 (stepLe_trans hm12 hm2)
+  apply stepLt_of _ _ hall
+  -- copy j in the three later states
+  have hl1 := hq1.same.2
+  have hl2 := (ownerShake_qrun j σ₁ σ₂ hsh).same.2
+  have hl3 := hq2.same.2
+  have hj1 : j < σ₁.replicas.length := by omega
+  have hj2 : j < σ₂.replicas.length := by omega
+  have hj3 : j < σ'.replicas.length := by omega
+  have hH1 : σ₁.H = σ.H := hq1.same.1
+  have e0 := getElemOpt_fronts σ j r hr
+  have e1 := getElemOpt_fronts σ₁ j σ₁.replicas[j] (List.getElem?_eq_getElem hj1)
+  have e2 := getElemOpt_fronts σ₂ j σ₂.replicas[j] (List.getElem?_eq_getElem hj2)
+  have e3 := getElemOpt_fronts σ' j σ'.replicas[j] (List.getElem?_eq_getElem hj3)
+  have le01 := (stepLe_iff _ _).1 hm1 |>.2 j _ _ e0 e1
+  have le12 := (stepLe_iff _ _).1 hm12 |>.2 j _ _ e1 e2
+  have le23 := (stepLe_iff _ _).1 hm2 |>.2 j _ _ e2 e3
+  refine ⟨j, _, _, e0, e3, ?_⟩
+  -- either the copy is still behind at the handshake (strict there), or it moved before (strict before)
+  have hown1 : σ₁.owner.maxVersion = σ.H.length := by rw [C03_owner_is_frontier σ₁ hreach1, hH1]
+  have hbound0 : r.maxVersion ≤ σ.H.length := by
+    have := (C03_integrity σ hreach r (List.mem_of_getElem? hr)).2.1
+    rw [C03_owner_is_frontier σ hreach] at this; exact this
+  have hbound1 : σ₁.replicas[j].maxVersion ≤ σ.H.length := by
+    have := (C03_integrity σ₁ hreach1 σ₁.replicas[j] (List.getElem_mem hj1)).2.1
+    rw [hown1] at this; exact this
+  by_cases hlag : σ₁.replicas[j].maxVersion < σ₁.owner.maxVersion
+  · obtain ⟨r', hr', hlt⟩ := ownerShake_progress j σ₁ σ₂ hsh σ₁.replicas[j] (List.getElem?_eq_getElem hj1) hlag
+    rw [List.getElem?_eq_getElem hj2] at hr'
+    cases hr'
+    exact frontierLt_of_le_lt le01 (frontierLt_of_lt_le hlt le23)
+  · have hmax1 : σ₁.replicas[j].maxVersion = σ.H.length := by omega
+    have : frontierLt r.frontier σ₁.replicas[j].frontier := by
+      unfold frontierLe frontierLt NodeState.frontier at *
+      simp only at *
+      omega
+    exact frontierLt_of_lt_le this (frontierLe_trans le12 le23)
+
+/-- sweep boundaries: consecutive states are related by a full-mesh sweep -/
+def MeshSweeps : List XSys → Prop
+  | [] => True
+  | [_] => True
+  | a :: b :: t => MeshSweep a b ∧ QRun a b ∧ MeshSweeps (b :: t)
+
+theorem meshSweeps_facts (σ : XSys) (hreach : XReach false σ) :
+    ∀ (t : List XSys), MeshSweeps (σ :: t) →
+      (∀ s ∈ σ :: t, s.fronts.length = σ.replicas.length) ∧
+      (∀ s ∈ σ :: t, AllBounded σ.H.length s.fronts) ∧
+      (∀ s ∈ σ :: t, s.H.length = σ.H.length) ∧
+      FairSweeps σ.H.length ((σ :: t).map XSys.fronts) := by
+  intro t
+  induction t generalizing σ with
+  | nil =>
+    intro _
+    refine ⟨?_, ?_, ?_, trivial⟩
+    · intro s hs; simp at hs; subst hs; simp [XSys.fronts]
+    · intro s hs; simp at hs; subst hs
+      intro f hf
+      simp only [XSys.fronts, List.mem_map] at hf
+      obtain ⟨r, hr, rfl⟩ := hf
+      have := C03_integrity s hreach r hr
+      rw [C03_owner_is_frontier s hreach] at this
+      exact ⟨this.2.2, this.2.1⟩
+    · intro s hs; simp at hs; subst hs; rfl
+  | cons b t ih =>
+    intro hm
+    obtain ⟨hsweep, hrun, hrest⟩ := hm
+    have hreachb := hrun.reach hreach
+    have hsame := hrun.same
+    obtain ⟨i1, i2, i3, i4⟩ := ih b hreachb hrest
+    rw [hsame.1, hsame.2] at *
+    refine ⟨?_, ?_, ?_, ?_⟩
+    · intro s hs
+      rcases List.mem_cons.1 hs with rfl | hs
+      · simp [XSys.fronts]
+      · exact i1 s hs
+    · intro s hs
+      rcases List.mem_cons.1 hs with rfl | hs
+      · intro f hf
+        simp only [XSys.fronts, List.mem_map] at hf
+        obtain ⟨r, hr, rfl⟩ := hf
+        have := C03_integrity s hreach r hr
+        rw [C03_owner_is_frontier s hreach] at this
+        exact ⟨this.2.2, this.2.1⟩
+      · exact i2 s hs
+    · intro s hs
+      rcases List.mem_cons.1 hs with rfl | hs
+      · rfl
+      · exact i3 s hs
+    · refine ⟨?_, i4⟩
+      intro hnc
+      exact C01_mesh_sweep_progress σ b hreach hsweep hnc
+
+/-- **C01 (convergence under full-mesh sweeps, no fairness hypothesis left).** Start from any reachable
+state of the system — after any history of writes, losses, duplicated or stale deltas, resets and GCs —
+let the owner stop writing, and cut what follows into sweeps in each of which the owner shakes hands
+loss-free with every holder (one op beyond the member header fitting the datagram), interleaved with
+arbitrary other gossip. Then among the first `n · ((V+1)² − 1) + 1` sweep boundaries one has every
+copy at the owner's max version: a run of non-converged boundaries cannot be longer. -/
+theorem C01_full_mesh_converges (σ : XSys) (t : List XSys) (hreach : XReach false σ)
+    (hm : MeshSweeps (σ :: t))
+    (hn : ∀ s ∈ (σ :: t).dropLast, ¬ ConvergedAt σ.H.length s.fronts) :
+    (σ :: t).length ≤ σ.replicas.length * ((σ.H.length + 1) * (σ.H.length + 1) - 1) + 1 := by
+  obtain ⟨h1, h2, _, h4⟩ := meshSweeps_facts σ hreach t hm
+  have := C01_converges_within_bounded_sweeps σ.H.length σ.replicas.length ((σ :: t).map XSys.fronts)
+    (by intro c hc; obtain ⟨s, hs, rfl⟩ := List.mem_map.1 hc; exact h1 s hs)
+    (by intro c hc; obtain ⟨s, hs, rfl⟩ := List.mem_map.1 hc; exact h2 s hs)
+    h4
+    (by
+      intro c hc
+      rw [← List.map_dropLast] at hc
+      obtain ⟨s, hs, rfl⟩ := List.mem_map.1 hc
+      exact hn s hs)
+  simpa using this
+
+/-! non-vacuity: one write, one holder that joined empty; the sweep is the single handshake -/
+def exW : Write := ⟨[107], [118], .set⟩
+def exσ0 : XSys := { XSys.init with H := [exW], owner := ownerWriteExec XSys.init.owner exW 5 }
+def exσ1 : XSys := { exσ0 with replicas := [⟨1, [], 0, 0⟩] }
+def exNd : NodeDelta := senderNodeDelta exσ1.owner (senderFrom exσ1.owner 0 0) 1 true
+def exR' : NodeState := match NodeState.applyDelta ⟨1, [], 0, 0⟩ exNd 9 with | .ok (r, _, _) => r | .error _ => ⟨1, [], 0, 0⟩
+def exσ2 : XSys := { exσ1 with deltas := exσ1.deltas ++ [(exNd, max exσ1.owner.lastGc exσ1.owner.maxVersion)], replicas := exσ1.replicas.set 0 exR' }
+
+example : XReach false exσ1 :=
+  XReach.step _ _ (XReach.step _ _ XReach.init (XStep.write XSys.init exW 5)) (XStep.join exσ0 1)
+example : exσ1.fronts = [(0, 0)] ∧ exσ2.fronts = [(0, 1)] := by decide
+example : ¬ ConvergedAt exσ1.H.length exσ1.fronts := by
+  intro h; have := h (0, 0) (by decide); revert this; decide
+example : ConvergedAt exσ2.H.length exσ2.fronts := by
+  intro f hf
+  have e : exσ2.fronts = [(0, 1)] := by decide
+  rw [e] at hf; simp at hf; subst hf; rfl
+example : OwnerShake 0 exσ1 exσ2 := by
+  refine ⟨⟨1, [], 0, 0⟩, rfl, Or.inr ⟨by decide, 1, 9, exR', .apply, [⟨[107], [118]⟩], Nat.le_refl _, ?_, rfl⟩⟩
+  rfl
+example : MeshSweeps [exσ1, exσ2] := by
+  have hs : OwnerShake 0 exσ1 exσ2 := by
+    refine ⟨⟨1, [], 0, 0⟩, rfl, Or.inr ⟨by decide, 1, 9, exR', .apply, [⟨[107], [118]⟩], Nat.le_refl _, ?_, rfl⟩⟩
+    rfl
+  refine ⟨?_, ownerShake_qrun 0 _ _ hs, trivial⟩
+  intro j hj
+  have : j = 0 := by simp [exσ1] at hj; exact hj
+  subst this
+  exact ⟨exσ1, exσ2, QRun.refl _, hs, QRun.refl _⟩
+
+end Mesh
 
 end Chitchat
